@@ -39,13 +39,26 @@ package mpx
 //@ func (*channelState).decrementSendWindow
 //@   safety[C07]
 //@   requires s != nil && ctx != nil && s.ctx != nil && s.ctx.CancelContext != nil && s.initWindow >= 0
-//@   modifies ghost.*
+//@   modifies ghost.lastLoad
+//@   modifies ghost.nAdd
+//@   modifies ghost.lastAdd
+//@   modifies ghost.sumAdd
+//@   modifies ghost.lastRes
+//@   modifies ghost.lastStatusOK at 0
+//@   modifies ghost.errMade at 0
 //@   let n = len(data)
 //@   ensures[C07] ghost(nAdd, s.sendWindow) == old(ghost(nAdd, s.sendWindow)) || ghost(nAdd, s.sendWindow) == old(ghost(nAdd, s.sendWindow)) + 1
 //@   ensures[C07] ghost(nAdd, s.sendWindow) == old(ghost(nAdd, s.sendWindow)) + 1 ==>
 //@        n <= 2147483647 && ghost(lastAdd, s.sendWindow) == 0 - n && result.Code == "ok"
 //@        && (ghost(lastLoad, s.sendWindow) >= n || ghost(lastLoad, s.sendWindow) >= s.initWindow / 2)
-//@   loop 1 modifies ghost.*
+//@   ensures[C07] result.Code == "ok" ==> ghost(nAdd, s.sendWindow) == old(ghost(nAdd, s.sendWindow)) + 1 || ghost(lastStatusOK, 0) == 1
+//@   loop 1 modifies ghost.lastLoad
+//@   loop 1 modifies ghost.nAdd
+//@   loop 1 modifies ghost.lastAdd
+//@   loop 1 modifies ghost.sumAdd
+//@   loop 1 modifies ghost.lastRes
+//@   loop 1 modifies ghost.lastStatusOK at 0
+//@   loop 1 modifies ghost.errMade at 0
 //@   loop 1 invariant ghost(nAdd, s.sendWindow) == old(ghost(nAdd, s.sendWindow)) && n <= 2147483647 && size == n
 //@   assert[C07] at select 1: window < size && window < s.initWindow / 2
 
@@ -292,3 +305,104 @@ package mpx
 //@ iface Channel.Free
 //@ iface Channel.Context
 //@ iface Channel.ReceiveWait
+
+// ---- flow control, the other mechanisms (C07): who debits and who credits the windows
+//
+// ghost(nAdd / lastAdd / sumAdd / lastRes, x): number of Adds to atomic x in this call, the last
+// delta, the sum of the deltas, the last returned value (arbitrary: other goroutines interfere).
+// ghost(nWin / lastWin, 0): window updates sent by this call; ghost(nSent / lastSentLen, 0): frames.
+
+//@ package github.com/basecomplextech/spec/mpx
+
+//@ func (*channel).acquire
+//@   trusted
+//@   ensures result != nil && obj(result) == ghost(stateOf, ch) && off(result) == 0
+//@ func (*channel).release
+//@   trusted
+//@ func (*channelState).open
+//@   trusted
+//@ func (*channelState).close
+//@   trusted
+
+//@ func (channelSender).sendWindow
+//@   trusted
+//@   modifies ghost.nWin at 0
+//@   modifies ghost.lastWin at 0
+//@   ensures ghost(nWin, 0) == old(ghost(nWin, 0)) + 1 && ghost(lastWin, 0) == delta
+//@ func (channelSender).sendOpen
+//@   trusted
+//@   modifies ghost.nSent at 0
+//@   modifies ghost.lastSentLen at 0
+//@   ensures ghost(nSent, 0) == old(ghost(nSent, 0)) + 1 && ghost(lastSentLen, 0) == len(data)
+//@ func (channelSender).sendData
+//@   trusted
+//@   modifies ghost.nSent at 0
+//@   modifies ghost.lastSentLen at 0
+//@   ensures ghost(nSent, 0) == old(ghost(nSent, 0)) + 1 && ghost(lastSentLen, 0) == len(data)
+//@ func (channelSender).sendClose
+//@   trusted
+//@   modifies ghost.nSent at 0
+//@   modifies ghost.lastSentLen at 0
+//@   ensures ghost(nSent, 0) == old(ghost(nSent, 0)) + 1 && ghost(lastSentLen, 0) == len(data)
+//@ func (channelSender).sendOpenClose
+//@   trusted
+//@   modifies ghost.nSent at 0
+//@   modifies ghost.lastSentLen at 0
+//@   ensures ghost(nSent, 0) == old(ghost(nSent, 0)) + 1 && ghost(lastSentLen, 0) == len(data)
+
+// acknowledgement: the consumed counter is reset, and a window update of exactly the reset amount
+// is sent, when - and only when - the value the counter reached is at least half the window
+//@ func (*channel).ReceiveAsync
+//@   safety[C07]
+//@   let s = cast(ghost(stateOf, ch), channelState)
+//@   requires ch != nil && ctx != nil && s.recvQueue != nil && s.initWindow >= 0
+//@   modifies ghost.*
+//@   let A0 = ghost(nAdd, s.recvBytes)
+//@   let S0 = ghost(sumAdd, s.recvBytes)
+//@   let W0 = ghost(nWin, 0)
+//@   ensures[C07] ghost(nAdd, s.recvBytes) == A0 || ghost(nAdd, s.recvBytes) == A0 + 1 || ghost(nAdd, s.recvBytes) == A0 + 2
+//@   ensures[C07] ghost(nAdd, s.recvBytes) == A0 ==> ghost(nWin, 0) == W0 && (result1 ==> result2.Code != "ok")
+//@   ensures[C07] ghost(nAdd, s.recvBytes) == A0 + 1 ==> ghost(nWin, 0) == W0 && result1 && len(result0) <= 2147483647 ==> ghost(sumAdd, s.recvBytes) == S0 + len(result0) && ghost(lastRes, s.recvBytes) < s.initWindow / 2
+//@   ensures[C07] ghost(nAdd, s.recvBytes) == A0 + 2 ==> 0 - ghost(lastAdd, s.recvBytes) >= s.initWindow / 2 && (ghost(nWin, 0) == W0 || ghost(nWin, 0) == W0 + 1)
+//@   ensures[C07] ghost(nAdd, s.recvBytes) == A0 + 2 && ghost(nWin, 0) == W0 + 1 ==> ghost(lastWin, 0) == 0 - ghost(lastAdd, s.recvBytes)
+//@   ensures[C07] ghost(nAdd, s.recvBytes) == A0 + 2 && result1 && len(result0) <= 2147483647 ==> ghost(sumAdd, s.recvBytes) == S0 + len(result0) + ghost(lastAdd, s.recvBytes)
+
+// the closing message is debited without waiting, exactly once, by exactly its size
+//@ func (*channel).SendAndClose
+//@   safety[C07]
+//@   let s = cast(ghost(stateOf, ch), channelState)
+//@   requires ch != nil && ctx != nil
+//   (messages of 2 GiB and more wrap the int32 window arithmetic: outside the statement)
+//@   requires len(data) <= 2147483647
+//@   modifies ghost.*
+//@   let A0 = ghost(nAdd, s.sendWindow)
+//@   let N0 = ghost(nSent, 0)
+//@   ensures[C07] (ghost(nAdd, s.sendWindow) == A0 && ghost(nSent, 0) == N0 && result.Code == "closed") || (ghost(nAdd, s.sendWindow) == A0 + 1 && ghost(nSent, 0) == N0 + 1)
+//@   ensures[C07] ghost(nAdd, s.sendWindow) == A0 + 1 && len(data) <= 2147483647 ==> ghost(lastAdd, s.sendWindow) == 0 - len(data) && ghost(lastSentLen, 0) == len(data)
+
+// a window update from the peer credits the send window by exactly its delta
+//@ func (*channelState).receiveWindow
+//@   safety[C07]
+//@   requires s != nil
+//@   modifies ghost.*
+//@   ensures[C07] ghost(nAdd, s.sendWindow) == old(ghost(nAdd, s.sendWindow)) + 1 && ghost(lastAdd, s.sendWindow) == ghost(winDelta, MK(msg)) && result.Code == "ok"
+
+//@ package github.com/basecomplextech/spec/proto/pmpx
+//@ func (ChannelWindow).Delta
+//@   trusted
+//@   ensures result == ghost(winDelta, MK(m))
+
+//@ package github.com/basecomplextech/spec/mpx
+
+// Send: a data frame goes out only after the window was debited by exactly its size (by the
+// admission rule of decrementSendWindow, or - first message - without waiting)
+//@ func (*channel).Send
+//@   safety[C07]
+//@   let s = cast(ghost(stateOf, ch), channelState)
+//@   requires ch != nil && ctx != nil && len(data) <= 2147483647
+//@   requires s.ctx != nil && s.ctx.CancelContext != nil && s.initWindow >= 0
+//@   modifies ghost.*
+//@   let A0 = ghost(nAdd, s.sendWindow)
+//@   let N0 = ghost(nSent, 0)
+//@   ensures[C07] ghost(nAdd, s.sendWindow) == A0 || (ghost(nAdd, s.sendWindow) == A0 + 1 && ghost(lastAdd, s.sendWindow) == 0 - len(data))
+//@   ensures[C07] ghost(nSent, 0) == N0 || (ghost(nSent, 0) == N0 + 1 && ghost(lastSentLen, 0) == len(data) && (ghost(nAdd, s.sendWindow) == A0 + 1 || ghost(lastStatusOK, 0) == 1))
